@@ -210,9 +210,17 @@ func runC18(c *core.Ctx) {
 
 	// ------------------------------------------------------------ total
 	c.Doc("C18.total", "IDL node builders assert unchecked only to scanner terminals", 1)
-	n := ruleUncheckedAssertions(c, "C18.total", "meta/idl", map[string]string{
-		"meta/idl.nodifyPackage": "the package-name node is produced by nodifyPackageName, which returns a string on every path (no error node)",
-	})
+	// nodifyPackage asserts the package-name node to be a string: that holds as long as
+	// the builder of the name part returns strings only (computed, not assumed)
+	allowed := map[string]string{}
+	if ok, why := returnsOnlyStrings(c, "meta/idl", "nodifyPackageNameAnd"); ok {
+		allowed["meta/idl.nodifyPackage"] = "the package-name node comes from nodifyPackageNameAnd, every return of which is a string (checked), passed through nodifyPackageNameMaybe and nodifyPackageName, which returns an error node only for a non-string"
+	} else {
+		c.Note("nodifyPackage exception not granted: %s", why)
+	}
+	n := ruleUncheckedAssertions(c, "C18.total", "meta/idl", allowed)
+	c.Doc("C18.ids", "an action's explicit uid is kept by the parser: an id is only assigned where none was given", 1)
+	ruleExplicitIDsKept(c)
 	c.Pass("C18.total", "unchecked-assertions", token.NoPos, fmt.Sprintf("%d unchecked assertions on parser nodes examined", n))
 }
 
@@ -350,5 +358,80 @@ func ruleRegisterComponents(c *core.Ctx) {
 			}
 		}
 		c.Check(bad == "", rule, key, fn.Pos(), "every component type is registered", bad)
+	}
+}
+
+// returnsOnlyStrings: every return of rel.name yields a string (as a node).
+func returnsOnlyStrings(c *core.Ctx, rel, name string) (bool, string) {
+	fn := c.Func(rel, "", name)
+	if fn == nil {
+		return false, name + " not found"
+	}
+	for _, r := range core.Returns(fn) {
+		if len(r.Results) != 1 {
+			return false, name + " has an unexpected result list"
+		}
+		mi, ok := core.RetVal(r, 0).(*ssa.MakeInterface)
+		if !ok {
+			return false, name + " returns a node that is not built from a string (at " + c.Pos(r.Pos()) + ")"
+		}
+		if b, isB := mi.X.Type().Underlying().(*types.Basic); !isB || b.Info()&types.IsString == 0 {
+			return false, name + " returns a " + mi.X.Type().String() + " node (at " + c.Pos(r.Pos()) + "): the unchecked assertion to string in nodifyPackage panics on it"
+		}
+	}
+	return true, ""
+}
+
+// ruleExplicitIDsKept: in the builder of an interface's action list, the ID of
+// a method, signal or property is only (re)assigned where it is zero, i.e. no
+// uid was given in the text: an explicit uid survives the round trip.
+func ruleExplicitIDsKept(c *core.Ctx) {
+	const rule = "C18.ids"
+	n := 0
+	for _, fn := range srcFuncsOfPkg(c, "meta/idl") {
+		if fn.Parent() != nil {
+			continue
+		}
+		// the builder: fills the Methods / Signals / Properties maps of an InterfaceType
+		fills := false
+		for _, b := range fn.Blocks {
+			for _, in := range b.Instrs {
+				if mu, ok := in.(*ssa.MapUpdate); ok {
+					p := core.AccessPath(mu.Map)
+					if len(p.Fields) > 0 && (p.Fields[len(p.Fields)-1].Name() == "Methods" || p.Fields[len(p.Fields)-1].Name() == "Signals") && fieldOwner(p.Fields[len(p.Fields)-1]) == "InterfaceType" {
+						fills = true
+					}
+				}
+			}
+		}
+		if !fills {
+			continue
+		}
+		for _, b := range fn.Blocks {
+			for _, in := range b.Instrs {
+				st, ok := in.(*ssa.Store)
+				if !ok {
+					continue
+				}
+				p := core.AccessPath(st.Addr)
+				if len(p.Fields) == 0 || p.Fields[len(p.Fields)-1].Name() != "ID" {
+					continue
+				}
+				owner := fieldOwner(p.Fields[len(p.Fields)-1])
+				if owner != "Method" && owner != "Signal" && owner != "Property" {
+					continue
+				}
+				n++
+				idF := p.Fields[len(p.Fields)-1]
+				root := core.RootOf(st.Addr)
+				isID := func(v ssa.Value) bool { return isFieldOf(v, idF) && core.RootOf(v) == root }
+				isZero := func(v ssa.Value) bool { k, ok := core.ConstInt(v); return ok && k == 0 }
+				c.Check(core.Guarded(fn, st, core.Eq(isID, isZero)), rule, fmt.Sprintf("%s/%s.ID#%d", core.FuncKey(fn), owner, n), st.Pos(), "assigned only where no uid was given (ID == 0)",
+					"the parser assigns an id to a "+strings.ToLower(owner)+" whose uid was given in the text (the store is not behind ID == 0): the action comes back under another id than the one it was printed with")
+			}
+		}
+	}
+	if n == 0 {
+		c.Undecided(rule, "meta/idl action list builder", token.NoPos, "no assignment of an action id found")
 	}
 }
